@@ -26,6 +26,8 @@ func init() {
 			{"C10.ASSERT", "zzControlBad_C10_ASSERT", true},
 			{"C10.NILDEREF", "zzControlBad_C10_NILDEREF", true},
 			{"C10.NILDEREF", "zzControlGood_C10_NILDEREF", false},
+			{"C10.TABLEINDEX", "zzControlBad_C10_TABLEINDEX", true},
+			{"C10.TABLEINDEX", "zzControlGood_C10_TABLEINDEX", false},
 		},
 	})
 }
@@ -38,6 +40,87 @@ func rulesC10(c *Ctx) {
 	ruleC10Panic(c)
 	ruleC10NilRecv(c)
 	ruleC10NilBucket(c)
+	ruleC10TableIndex(c)
+}
+
+// ruleC10TableIndex: a package-level array or slice used as a lookup table is indexed only by a constant,
+// or under a bound established on the path (i < len(table), i < K, a range loop).  A table indexed by an
+// enumeration value panics for the first value somebody forgets to give an entry; the map form answers
+// the zero value instead.
+func ruleC10TableIndex(c *Ctx) {
+	p := c.P
+	n, bad := 0, 0
+	for _, fn := range c.prodFuncs("ast", "boltz", "objectz", "zitiql") {
+		var fi *FactInfo
+		for _, b := range fn.Blocks {
+			for _, in := range b.Instrs {
+				var tbl, idx ssa.Value
+				switch x := in.(type) {
+				case *ssa.IndexAddr:
+					tbl, idx = x.X, x.Index
+				case *ssa.Index:
+					tbl, idx = x.X, x.Index
+				default:
+					continue
+				}
+				var g *ssa.Global
+				switch t := tbl.(type) {
+				case *ssa.Global:
+					g = t
+				case *ssa.UnOp:
+					g, _ = t.X.(*ssa.Global)
+				}
+				if g == nil || g.Pkg == nil || !strings.HasPrefix(g.Pkg.Pkg.Path(), modPath) {
+					continue
+				}
+				switch derefType(g.Type()).Underlying().(type) {
+				case *types.Array, *types.Slice:
+				default:
+					continue
+				}
+				n++
+				if _, isConst := idx.(*ssa.Const); isConst {
+					continue // the compiler checks constant indexes of arrays; a constant slice index is a fixed slot
+				}
+				if fi == nil {
+					fi = factsOf(fn)
+				}
+				ci := fi.canon(idx)
+				guarded := fi.HoldsWhere(b, func(f Fact) bool {
+					bo, ok := f.V.(*ssa.BinOp)
+					if !ok || f.Kind != "true" {
+						return false
+					}
+					switch bo.Op {
+					case token.LSS, token.LEQ, token.GTR, token.GEQ:
+					default:
+						return false
+					}
+					involves := func(v ssa.Value) bool {
+						if v == idx || fi.canon(v) == ci {
+							return true
+						}
+						if cv, isConv := v.(*ssa.Convert); isConv {
+							return cv.X == idx || fi.canon(cv.X) == ci
+						}
+						return false
+					}
+					return involves(bo.X) || involves(bo.Y)
+				})
+				if guarded {
+					c.OK("C10.TABLEINDEX", FnName(fn)+": "+g.Name()+"[...]", p.Pos(in.Pos()), "indexed under a bound on the index ("+fi.Describe(b)+")")
+				}
+				if !guarded {
+					bad++
+					c.Bad("C10.TABLEINDEX", FnName(fn)+": "+g.Name()+"[...]", p.Pos(in.Pos()), "the package-level table "+g.Name()+" is indexed by "+describeValue(idx)+" with no bound established on the path: a value without an entry (a new or forgotten enumeration value) panics with index out of range where a map lookup would yield the zero value")
+				}
+			}
+		}
+	}
+	if bad == 0 {
+		c.OK("C10.TABLEINDEX", "package-level tables", "-", fmt.Sprintf("%d index expression(s) on package-level arrays/slices, all constant or bounded", n))
+	}
+	c.CallSites(n)
 }
 
 // ruleC10NilRecv: results of the listener's pop helpers are nil once an error is latched; using one
